@@ -43,9 +43,45 @@ PROPS["C04"] = dict(
                  "Vec range IndexMut == as_mut_slice()[range] (closed-list rewrite)"],
 )
 
+PROPS["C03"] = dict(
+    level="proof",
+    explanation=("Each control-flow node of the real code (Block, Branch, Loop, Scope, Configuration::run, State::with_inner_state) "
+                 "is extracted verbatim each run and verified by Verus against the structured-program meaning of that node, with "
+                 "children ARBITRARY (uninterpreted functions of problem and state): the induction step of a structural induction "
+                 "over configuration trees. Unbounded in tree size, loop trip count, children's behaviour."),
+    verus=[dict(name="block", template="contracts/C03/block.vrs",
+                expect=["<Block<P> as Component<P>>::init", "<Block<P> as Component<P>>::require", "<Block<P> as Component<P>>::execute"]),
+           dict(name="branch_loop", template="contracts/C03/branch_loop.vrs",
+                expect=["<Branch<P> as Component<P>>::execute", "<Loop<P> as Component<P>>::execute", "<Loop<P> as Component<P>>::init"]),
+           dict(name="scope", template="contracts/C03/scope.vrs", expect=["<Scope<P> as Component<P>>::execute"]),
+           dict(name="run", template="contracts/C03/run.vrs", expect=["Configuration<P>::run"]),
+           dict(name="inner_state", template="contracts/C03/inner_state.vrs", expect=["State<'a, P>::with_inner_state"])],
+    kani=[],
+    min_obligations={"quick": 14, "thorough": 14},
+    uncovered=["builder sugar (do_/while_/if_/scope_ -> Block/Loop/Branch/Scope) is not under contract",
+               "the meta-step 'node obligations => all trees' is structural induction, stated not machine-checked",
+               "Loop::execute is proved for partial correctness (a loop over an arbitrary condition need not terminate)"],
+    assumptions=["children are deterministic functions of (problem, state) (randomness lives in the state)",
+                 "Loop pass counter does not overflow u32 along the run (precondition; debug builds panic, release wraps)",
+                 "Scope's fn-pointer fields mirrored as opaque callables (Verus has no fn-pointer types)",
+                 "registry scope operations new/into_child/into_parent as contracted in preamble/registry_scopes.rs (C01 discharges them with Kani)"],
+)
+PROPS["C07"] = dict(
+    level="other",
+    explanation=("Verus: BestIndividual::update extracted verbatim, contract 'replaced iff none yet or candidate strictly better; result "
+                 "never worse than before nor than the candidate' over an abstract total order whose laws are C09's obligations. "
+                 "Kani: population best / archive kernels at enumerated sizes."),
+    verus=[dict(name="best_individual", template="contracts/C07/best_individual.vrs",
+                expect=["BestIndividual<P>::update", "BestIndividual<P>::new"])],
+    kani=[],
+    min_obligations={"quick": 13, "thorough": 13},
+    uncovered=["whole-run clause 'reported best = minimum returned' (placement of updates in templates)"],
+    assumptions=["SingleObjective order laws (preamble/objective.rs) = C09 obligations"],
+)
+
 NOT_YET = "not claimed yet in this commit: unit under construction (see DESIGN.md §4 for the planned contracts)"
 NOT_APPLICABLE = {
-    "C01": NOT_YET, "C02": NOT_YET, "C03": NOT_YET, "C06": NOT_YET, "C07": NOT_YET,
+    "C01": NOT_YET, "C02": NOT_YET, "C06": NOT_YET,
     "C10": NOT_YET, "C11": NOT_YET, "C12": NOT_YET, "C13": NOT_YET, "C14": NOT_YET, "C15": NOT_YET, "C17": NOT_YET,
     "C08": "schedule/thread independence and run-to-run determinism: Kani has no threads, Verus would need its own permission types inside rayon; determinism of two runs is a 2-safety property with no per-call contract; the one contract-shaped clause (optimize_with keeps a supplied generator) sits behind State + eyre, which neither verifier reaches (DESIGN.md §2 facts 6, 7, 18; §6)",
     "C16": "whole-run property of 21 template compositions of dyn components over State; no function-level contract decides it, and composing per-component stack-effect contracts needs an interpreter of the template tree, i.e. a model (DESIGN.md §6)",
@@ -64,6 +100,26 @@ MANIFEST_TEXT = {
               "together. Unbounded (all encodings, all objective values, all objective functions)."),
         note=("Trusted: mirror of the Problem trait (associated types only), vstd specs of Option/Clone. The clause about every "
               "step of every shipped heuristic is NOT decided (whole runs); listed under uncovered_clauses in the evidence."),
+    ),
+    "C03": dict(
+        category="proof",
+        technique="Verus contracts on the real control-flow nodes against abstract (uninterpreted) children",
+        text=("Block/Branch/Loop/Scope (init, require, execute), Configuration::run and State::with_inner_state are extracted verbatim "
+              "from /repo each run; each is proved by Verus to compute exactly the structured-program meaning of its node for "
+              "ARBITRARY children, conditions, scope hooks and closures (lifecycle init;require;execute, first-error-stops, loop "
+              "re-initialises and tests its condition before every pass and counts completed passes, scope closed on success and "
+              "on error). Unbounded; all trees follow by structural induction (the induction itself is not machine-checked)."),
+        note=("Trusted: abstract-children mirror (traits Component/Condition with uninterpreted per-phase functions), opaque State, "
+              "&mut-mirror of the counter access, mirrored Scope struct (fn pointers), registry scope contracts (discharged by C01), "
+              "closed-list extraction rewrites (listed in evidence). Loop: partial correctness; counter overflow excluded by precondition."),
+    ),
+    "C07": dict(
+        category="other",
+        technique="Verus contract on the real BestIndividual::update over an abstract total order + Kani kernels",
+        text=("BestIndividual::update is extracted verbatim and proved (unbounded) to replace the stored individual iff there was none "
+              "or the candidate is strictly better, storing a copy of the candidate, and to end with a best that is no worse than "
+              "before and no worse than the candidate. Kernel harnesses (population minimum, elitist archive) are bounded Kani triples."),
+        note="Trusted: SingleObjective mirrored as an abstract total order (laws = C09 obligations); Individual contracts (C05). Whole-run clause uncovered.",
     ),
     "C04": dict(
         category="other",
@@ -84,3 +140,21 @@ MANIFEST_TEXT = {
         note="Trusted: CBMC's IEEE-754 model, Kani's translation of the derive_more operator impls. Vector length <= 3 (thorough) / <= 2 pairs (quick).",
     ),
 }
+
+PROPS["C13"] = dict(
+    level="other",
+    explanation=("Hoare triples on the real functional helpers (mutation/functional.rs, recombination/functional.rs) discharged by "
+                 "CBMC at concrete lengths with symbolic contents and index tuples under the functions' documented preconditions."),
+    verus=[], kani=[dict(files=["contracts/C13/c13.rs"])],
+    min_obligations={"quick": 10, "thorough": 15},
+    uncovered=["mutation components' execute (State + RNG)", "recombination() driver", "real/bit mutations gated by the rate"],
+)
+PROPS["C14"] = dict(
+    level="other",
+    explanation=("Hoare triples on the real BoundaryConstraint::constrain implementations, one coordinate, domain and coordinate "
+                 "symbolic f64 within the stated regime; termination by unwinding assertion."),
+    verus=[], kani=[dict(files=["contracts/C14/c14.rs"])],
+    min_obligations={"quick": 6, "thorough": 6},
+    uncovered=["initialisation operators (rejection-sampling loops over a symbolic RNG are unbounded)", "resampling distribution",
+               "boundary_constraint driver over populations"],
+)
